@@ -786,10 +786,15 @@ func sweep(bin string, def *checkDef, check, tier string, baseSeed uint64, cfg t
 			vcheck = firstViol.Check
 		}
 		path := report(bin, def, vcheck, tier, firstViol)
-		fmt.Printf("VIOLATION property=%s replay=%s\n", def.property, path)
-		code = 1
+		if path == "" {
+			fmt.Fprintln(os.Stderr, "vcheck: harness trouble (exit 2, not a verdict): a violation was observed once and did not reproduce in three fresh executions of the same seed")
+			code = 2
+		} else {
+			fmt.Printf("VIOLATION property=%s replay=%s\n", def.property, path)
+			code = 1
+		}
 	}
-	if writeEv {
+	if writeEv && code != 2 {
 		writeEvidence(def, check, tier, baseSeed, a, wall, code != 0)
 	}
 	unreached := []string{}
@@ -871,6 +876,32 @@ func report(bin string, def *checkDef, check, tier string, v *Result) string {
 		// confirm in a fresh process
 		c := runTape(bin, check, tier, v.Seed, v.Tape, true, timeout)
 		confirmed := sameViolation(c, oracle)
+		if !confirmed && oracle != "livelock" {
+			// second and third opinion: the seed itself, in fresh processes
+			for k := 0; k < 2 && !confirmed; k++ {
+				w := startWorker(bin)
+				c = w.do(&Job{Check: check, Tier: tier, Seed: v.Seed, Trace: true}, timeout)
+				w.stop()
+				confirmed = sameViolation(c, oracle)
+			}
+			if confirmed {
+				v, final = c, c
+				rep["note"] = "reproduced by re-running the seed, not by the tape recorded in the sweep"
+			} else {
+				// observed once, never again: the simulator was not
+				// deterministic for this seed. That is harness trouble, not a
+				// verdict (a violation is reported with a replay that
+				// reproduces it); the record is kept for diagnosis.
+				rep["replay_confirmed"] = false
+				rep["tape"], rep["knobs"], rep["operations"], rep["event_log_tail"] = v.Tape, v.Knobs, v.Ops, v.LogTail
+				b, _ := json.MarshalIndent(rep, "", " ")
+				ud := filepath.Join(verifDir, "build", "unconfirmed")
+				_ = os.MkdirAll(ud, 0755)
+				_ = os.WriteFile(filepath.Join(ud, filepath.Base(path)), b, 0644)
+				fmt.Fprintf(os.Stderr, "unconfirmed: oracle=%s seed=%d: %s\n(record: %s)\n", oracle, v.Seed, oneLine(v.Violation.Msg, 600), filepath.Join(ud, filepath.Base(path)))
+				return ""
+			}
+		}
 		rep["replay_confirmed"] = confirmed
 		if confirmed {
 			min := minimise(bin, check, tier, v.Seed, v.Tape, oracle, timeout)
